@@ -77,9 +77,17 @@ def oracle(ctx, stores):
     return bad
 
 
+def oracle_with_source(ctx, stores):
+    """... and 'the labels that calls name' are read off the SOURCE as well (a label names the next instruction of the text,
+    directives in between do not matter): the graph's own label sets cannot vouch for a label that the builder lost on the
+    way (round 9: `f:` / `.align 2` / code - the label was dropped from every node, the call had no function)"""
+    from props import C03
+    return oracle(ctx, stores) + C03.oracle_source_targets(ctx, stores)
+
+
 def run(ctx):
     generic.run(ctx, "C11", ["new", "markup", "live"], dict(conforming=40, flow=120, random=40, injected=20, handlers=40, cutflow=30, labeldir=30),
-                oracle=oracle, what="function discovery")
+                oracle=oracle_with_source, what="function discovery")
 
 
 replay = generic.replay
